@@ -207,7 +207,7 @@ def _cov_args(rng, Sig):
     return {"Sigma": J(Sig), "Lambda": J(orc.inv(Sig)), "ln_det_Sigma": J(orc.slogdet(Sig))}
 
 
-def mk_conditional(kind, rng, R, Dy, Dx, kappa=None, zero_M=False, Du=2):
+def mk_conditional(kind, rng, R, Dy, Dx, kappa=None, zero_M=False, Du=2, u_fixed=None):
     """linear-Gaussian conditional p(y|x) = N(Mx+b, Sigma). returns (obj, Truth, call_kw).
     call_kw holds the control variable for the NN-controlled class."""
     L = lib()
@@ -265,6 +265,10 @@ def mk_conditional(kind, rng, R, Dy, Dx, kappa=None, zero_M=False, Du=2):
             return jnp.tanh(u @ Wj) + bj
 
         u = gen.vec(rng, R, Du)
+        if gen.HOSTILE_SPECIAL and rng.random() < 0.5:
+            u = np.ones((R, Du))
+        if u_fixed is not None:
+            u = np.asarray(u_fixed, dtype=float).copy()  # the same constant control in many objects of one process
         out = np.tanh(u @ Wc) + bc
         M = out[:, : Dy * Dx].reshape(R, Dy, Dx)
         b = out[:, Dy * Dx:]
@@ -286,7 +290,11 @@ def mk_conditional(kind, rng, R, Dy, Dx, kappa=None, zero_M=False, Du=2):
         else:
             obj = C.NNControlGaussianConditional(Sigma=J(Sig), num_cond_dim=Dx,
                                                  num_control_dim=Du, control_func=control_func)
-        return obj, Truth(M=M, b=b, Sigma=np.tile(Sig, (R, 1, 1))), kw
+        def net(u_):  # the control network in NumPy: (M(u), b(u)) for any control input
+            o_ = np.tanh(np.asarray(u_) @ Wc) + bc
+            return o_[:, : Dy * Dx].reshape(-1, Dy, Dx), o_[:, Dy * Dx:]
+
+        return obj, Truth(M=M, b=b, Sigma=np.tile(Sig, (R, 1, 1)), net=net, Du=Du), kw
     raise KeyError(kind)
 
 
@@ -296,7 +304,32 @@ HET_KINDS = ("het_exp", "het_cosh", "het_step", "het_relu")
 
 def mk_approx(kind, rng, Dy, Dx, Dk, Da=None, wscale=0.6, kappa=None, zero_w=False, yscale=1.0,
               A_kappa=None):
-    """approximate conditionals. returns (obj, Truth)."""
+    """approximate conditionals. returns (obj, Truth). In the special-value regime about half of
+    the objects come with a *bystander*: a second live object of the same class and shapes with
+    other parameters, built right after the first and used first (Truth.bystander: checks may
+    also drive it with their own operands). Objects must not see each other."""
+    obj, t = _mk_approx(kind, rng, Dy, Dx, Dk, Da, wscale, kappa, zero_w, yscale, A_kappa)
+    t["bystander"] = None
+    if gen.LIVE_PEERS and rng.random() < 0.5:
+        sub = np.random.default_rng(int(rng.integers(0, 2 ** 31)))
+        try:
+            with gen.calm():
+                by, _ = _mk_approx(kind, sub, Dy, Dx, Dk, Da, wscale, kappa, False, yscale, None)
+                p0, _ = mk_pdf(sub, 1, Dx, kappa=10.0, scale=0.5)
+                by.affine_marginal_transformation(p0)
+                if kind in ("lrbf", "lsem"):
+                    q0, _ = mk_pdf(sub, 1, Dy + Dx, kappa=10.0)
+                    by.integrate_log_conditional(q0)
+                else:
+                    by.integrate_log_conditional_y(p0, y=J(sub.standard_normal((1, Dy))))
+            t["bystander"] = by
+        except Exception:
+            pass
+    return obj, t
+
+
+def _mk_approx(kind, rng, Dy, Dx, Dk, Da=None, wscale=0.6, kappa=None, zero_w=False, yscale=1.0,
+               A_kappa=None):
     L = lib()
     A_ = L.approx
     if kind in ("lrbf", "lsem"):
